@@ -387,7 +387,7 @@ void profile_clone(const json& plan, Ctx& ctx) {
 			if (!sp.raw) dstDefaultSaved = true;
 			SaveOut so = saveNif(*D, sp);
 			ctx.hist.str(so.bytes);
-			auto fresh = std::make_unique<NifFile>();
+			auto fresh = restartObject(sameModel ? S : Downed, ctx);
 			if (loadNif(*fresh, so.bytes).rc != 0) ctx.viol("clone:destination-not-loadable", where + ": the destination does not reload after cloning");
 			ctx.fault("F-RESTART");
 			trace += "R";
